@@ -37,7 +37,10 @@ Nest == <<"(try _1 _2)", "(try 1 (catch _1 _2))", "(try (throw 1) (catch _1 _2) 
           "(do (def f (fn _1 _2)) (f _3))", "(map (fn _1 _2) [_3])", "(apply (fn _1 _2) _3)", "(if _1 _2 _3 1)",
           "(macroexpand (_1 _2))", "(eval _1 _2)", "(try _1 (catch e _2) (finally _3) 1)", "(def _1 _2 _3)",
           "(swap! (atom 1) (fn _1 _2) _3)", "(try (try _1 (finally _2)) (catch e _3))",
-          "(do (defmacro m (fn [& r] _1)) (m))", "(do (defmacro m (fn [a] a)) (m _1 _2))">>
+          "(do (defmacro m (fn [& r] _1)) (m))", "(do (defmacro m (fn [a] a)) (m _1 _2))",
+          \* functions that went through with-meta, used as macro / called / mapped / applied
+          "(do (defmacro m (with-meta (fn [a] a) _1)) (m _2))", "(do (def f (with-meta (fn [a] a) _1)) (f _2) (map f [_3]))",
+          "(do (defmacro m (with-meta (fn [& r] _1) {:d 1})) (m _2 _3))", "((with-meta (fn _1 _2) {:d 1}) _3)">>
 NestT == [k \in 1..Len(Nest) |-> Parse(Nest[k])]
 
 Values == <<"nil", "1", "\"s\"", ":k", "'x", "()", "[1]", "{:a 1}", "#{:a}", "inc", "(atom 1)", "-1", "'(1 2)", "[[1]]">>
